@@ -341,6 +341,73 @@ func pinsOf(ctx context.Context, p *clus.CRDTPeer) map[string]bool {
 	return m
 }
 
+// TestRelayedUntrustedPublisher: U - B - A in a line (no link between A and U).
+// A trusts only B; B trusts A and U, so B accepts U's broadcast and the pubsub
+// router relays it to A. The message A receives is signed by U (untrusted) but
+// delivered by B (trusted): A must ignore it. Rebroadcast is set to 1h so that
+// B's own head broadcasts (the known transitive-trust finding) cannot
+// interfere within the observation window.
+func TestRelayedUntrustedPublisher(t *testing.T) {
+	sec := R.Sec("crdt-untrusted-publisher-relayed")
+	for _, gossip := range []bool{true, false} {
+		gossip := gossip
+		clus.Bubble(t, func(t *testing.T) {
+			ctx := context.Background()
+			mn, hosts := clus.NewMocknetUnconnected(ctx, 0, 3)
+			ids := []peer.ID{hosts[0].ID(), hosts[1].ID(), hosts[2].ID()}
+			a, b, u := 0, 1, 2
+			mn.UnlinkPeers(ids[a], ids[u])
+			var ps []*clus.CRDTPeer
+			for i, h := range hosts {
+				i := i
+				p, err := clus.NewCRDTPeer(ctx, h, clus.NewFaultStore(), gossip, func(c *crdt.Config) {
+					c.RebroadcastInterval = time.Hour
+					c.TrustAll = false
+					switch i {
+					case a:
+						c.TrustedPeers = []peer.ID{ids[b]}
+					case b:
+						c.TrustedPeers = []peer.ID{ids[a], ids[u]}
+					case u:
+						c.TrustAll = true
+					}
+				})
+				if err != nil {
+					t.Fatal(err)
+				}
+				ps = append(ps, p)
+			}
+			defer func() {
+				for _, p := range ps {
+					p.Stop()
+					p.Host.Close()
+				}
+			}()
+			for _, p := range ps {
+				<-p.Cons.Ready(ctx)
+			}
+			mn.ConnectPeers(ids[u], ids[b])
+			mn.ConnectPeers(ids[b], ids[a])
+			time.Sleep(5 * time.Second) // subscriptions exchanged, gossipsub mesh grafted
+			synctest.Wait()
+			pin := api.PinCid(clus.Cid("relayed-from-U"))
+			pin.ReplicationFactorMin, pin.ReplicationFactorMax = -1, -1
+			ps[u].Cons.LogPin(ctx, pin)
+			time.Sleep(20 * time.Second)
+			synctest.Wait()
+			atB := pinsOf(ctx, ps[b])[pin.Cid.String()]
+			atA := pinsOf(ctx, ps[a])[pin.Cid.String()]
+			direct := len(hosts[a].Network().ConnsToPeer(ids[u]))
+			R.Eval(sec, fmt.Sprintf("gossip=%v|relay-accepted-U=%v|A-applied=%v|direct-conns=%d", gossip, atB, atA, direct), true)
+			if atA {
+				R.Violation("C07|crdt-pubsub|relayed-by-trusted-peer|A|update-from-untrusted-publisher-accepted", map[string]interface{}{
+					"gossip": gossip, "topology": "U - B - A (no A-U link)", "A_trusts": "B", "B_trusts": "A,U", "relay_B_has_the_pin": atB,
+					"A_has_the_pin": atA, "direct_A_U_connections": direct})
+			}
+		})
+	}
+}
+
 func TestUntrustedPublisher(t *testing.T) {
 	sec := R.Sec("crdt-untrusted-publisher")
 	for _, gossip := range []bool{false, true} {
